@@ -281,6 +281,8 @@ def install():
         try:
             if func in ("not", "iszero") and evaluate and g.is_integer(val) != -1:
                 got = g.s_dict.get(var)
+                if isinstance(got, str) and got.isdigit():
+                    got = int(got)
                 if isinstance(got, int) and not isinstance(got, bool):
                     _count("update_unary_func_fold")
                     v = int(val)
